@@ -201,7 +201,7 @@ pub fn new(parameters: &RawParameters, _ctx: &dyn Context) -> Result<Op, Error> 
     }
 
     let polar = (t - FRAC_PI_2).abs() < EPS10;
-    let north = polar && (t > 0.0);
+    let north = polar && (lat_0 > 0.0);
     let equatorial = !polar && t < EPS10;
     let oblique = !polar && !equatorial;
     match (polar, equatorial, north) {
